@@ -513,6 +513,11 @@ func fieldIsName(f *ssa.Field) bool {
 }
 
 func c18r4(c *core.Ctx) {
+	for _, n := range [][2]string{{"util", "(*fileStorage).Set"}, {"util", "(*fileStorage).Get"}, {"db", "(*database).entityForKey"}, {"db", "(*database).EntityWithName"}, {"db", "(*database).SaveEntity"}} {
+		if f := c.P.Func(n[0], n[1]); f != nil {
+			errorTestPolarity(c, f, nil)
+		}
+	}
 	p := c.P
 	databaseImplsReadStorage(c)
 	// lookups read the storage on every successful path
@@ -578,6 +583,74 @@ func c18r4(c *core.Ctx) {
 			}
 		})
 		c.Check(ok, "set-returns-write-error", f.Pos(), "Set returns the write error", "Set does not return the error of the file write")
+	}
+	// Get hands back every byte it read: each chunk of a positive count is appended, the loop goes on after it, and the only way
+	// out of the loop is a read that delivered nothing
+	if g := p.Func("util", "(*fileStorage).Get"); g != nil {
+		reads := bareReads(g)
+		core.Instrs(g, func(i ssa.Instruction) {
+			if call, ok := i.(*ssa.Call); ok && core.IsCall(call, "(*os.File).Read") {
+				reads = append(reads, call)
+			}
+		})
+		if len(reads) == 1 {
+			rd := reads[0]
+			var n ssa.Value
+			for _, r := range *rd.Referrers() {
+				if e, ok := r.(*ssa.Extract); ok && e.Index == 0 {
+					n = e
+				}
+			}
+			positive := func(cond ssa.Value) (bool, bool) { // fact: n > 0
+				b, ok := cond.(*ssa.BinOp)
+				if !ok || n == nil || b.X != n {
+					return false, false
+				}
+				k, isK := core.ConstInt(b.Y)
+				if !isK {
+					return false, false
+				}
+				switch {
+				case b.Op == token.GTR && k == 0, b.Op == token.GEQ && k == 1, b.Op == token.NEQ && k == 0:
+					return true, false
+				case b.Op == token.LEQ && k == 0, b.Op == token.LSS && k == 1, b.Op == token.EQL && k == 0:
+					return false, true
+				}
+				return false, false
+			}
+			notPositive := func(cond ssa.Value) (bool, bool) { t, f := positive(cond); return f, t }
+			var wr *ssa.Call
+			core.Instrs(g, func(i ssa.Instruction) {
+				call, ok := i.(*ssa.Call)
+				if !ok || !core.IsCall(call, "(*bytes.Buffer).Write") {
+					return
+				}
+				if sl, isSl := core.Args(call)[0].(*ssa.Slice); isSl && sl.High == n && sl.Low == nil && allocOf(sl) == allocOf(core.Args(rd)[0]) {
+					wr = call
+				}
+			})
+			okLoop := wr != nil && core.Dominated(wr, positive) && reachesAfter(wr, rd)
+			okExit, okRet := true, false
+			core.Instrs(g, func(i ssa.Instruction) {
+				r, isR := i.(*ssa.Return)
+				if !isR || len(res(r)) != 2 || core.IsNilConst(res(r)[0]) {
+					return
+				}
+				if !core.Dominated(r, notPositive) {
+					okExit = false
+				}
+				if wr != nil && core.AnySource(res(r)[0], func(sv ssa.Value) bool {
+					call, ok := sv.(*ssa.Call)
+					return ok && core.IsCall(call, "(*bytes.Buffer).Bytes") && call.Call.Args[0] == wr.Call.Args[0]
+				}) {
+					okRet = true
+				}
+			})
+			c.Check(okLoop && okExit && okRet, "get-returns-what-it-read@"+fname(g), g.Pos(), "every chunk of a positive count is appended, the loop continues, it ends on an empty read and returns the accumulated bytes",
+				"Get does not return exactly the bytes it read (a chunk is not appended, the loop ends after the first chunk, or it ends while data is still coming): values longer than the read buffer come back truncated or empty")
+		} else if len(reads) > 1 {
+			c.Note("get-read-loop", g.Pos(), "several bare reads in Get: the chunk-accumulation rule is not applied")
+		}
 	}
 	if f := p.Func("db", "(*database).entityForKey"); f != nil {
 		getErr, decErr := false, false
@@ -894,19 +967,35 @@ func carriesWriteErr(v ssa.Value, depth int) bool {
 func isWriteCloseErr(v ssa.Value, depth int) bool {
 	if ph, ok := v.(*ssa.Phi); ok {
 		hasW, hasC := false, false
+		polarity := true
+		var wcall ssa.Instruction
 		for _, e := range ph.Edges {
 			for _, s := range core.Sources(e) {
 				if ex, ok := s.(*ssa.Extract); ok {
 					if call, ok := ex.Tuple.(*ssa.Call); ok && core.IsCall(call, "(*os.File).Write") {
 						hasW = true
+						wcall = call
 					}
-				}
-				if call, ok := s.(*ssa.Call); ok && core.IsCall(call, "(*os.File).Close") {
-					hasC = true
 				}
 			}
 		}
-		if hasW && hasC {
+		for k, e := range ph.Edges {
+			for _, s := range core.Sources(e) {
+				if call, ok := s.(*ssa.Call); ok && core.IsCall(call, "(*os.File).Close") {
+					hasC = true
+					// the close error replaces the write error only where the write error is nil
+					if wcall != nil && k < len(ph.Block().Preds) {
+						pred := ph.Block().Preds[k]
+						last := pred.Instrs[len(pred.Instrs)-1]
+						wNil := errNilOfAny(func(i ssa.Instruction) bool { return i == wcall }, 1)
+						if !core.Dominated(last, wNil) {
+							polarity = false
+						}
+					}
+				}
+			}
+		}
+		if hasW && hasC && polarity {
 			return true
 		}
 	}
